@@ -19,8 +19,15 @@ def run(ctx):
                 "methods that return, raise, do not exist, return a promise, send again re-entrantly, or return a Deferred (fired before the "
                 "send, before / after the delivery, never; with a value, a Failure, a promise); exhaustive families: chains of "
                 "1..3 hops in every order, backlogs of 1..3 messages of every kind (failing sendOnly included) before a "
-                "resolution, eventually()/fireEventually() interleavings; all words up to a length over a template alphabet "
-                "plus seeded random longer ones; "
+                "resolution, eventually()/fireEventually() interleavings; WHAT KIND OF OBJECT is submitted / observes / is the "
+                "resolution (lambda, bound method, functools.partial with and without bound arguments, instance with __call__, "
+                "an object on which everything but the call fails, a class, odd names, one function object submitted "
+                "repeatedly; fireEventually values None / false / empty / opaque; target objects whose method is a partial "
+                "built by a property / an instance attribute with __call__ / that cannot be printed or compared) at every "
+                "position of a batch with every raise code; a promise resolved with a promise in every state (EVENTUAL, "
+                "CHAINED over 1..2 hops or to itself, NEAR, BROKEN, settled through a chain, notification still queued); "
+                "all words up to a length over a template alphabet plus seeded random longer ones (every second random "
+                "script / fireEventually value of a non-plain kind, chosen by its id); "
                 "a case is non-trivial when at least one callable ran / one message was delivered or one observer fired")
     ctx.assumptions = [
         "QUEUE: the model is the statement-by-statement translation of _SimpleCallQueue.append/_turn/flush and of eventually/"
@@ -44,7 +51,13 @@ def run(ctx):
         "a flush observer's callback is a list of actions (eventually(script) / fireEventually / flushEventualQueue() with a "
         "callback of the same kind, nested to any depth); callbacks that then RAISE or RETURN A DEFERRED are generated and "
         "run against the model of the same callback ending normally (the Deferred keeps both to itself: a queue that "
-        "noticed would disagree with the model); cancelling / re-firing the flush Deferred is not generated"]
+        "noticed would disagree with the model); cancelling / re-firing the flush Deferred is not generated",
+        "the KIND of object submitted to eventually() / given to fireEventually() / registered as observer / used as "
+        "resolution is invisible to the models (the translated queue code is polymorphic in the callable and the payload: "
+        "C17_ev_eventually_any_callable, C17_ev_turn_any_callable): programs that differ only in kinds have the same model "
+        "run; that the real code does not look at the object is checked by the direct oracle and by the correspondence of "
+        "every such program; `log.err()` = swallowed stays an assumption, a handler that does more is outside the "
+        "translatable subset (fail closed)"]
     ok, log = ctx.coq_build(["props/C17.vo"])
     from harness import c17_impl as impl
     before = len(ctx.failures)
@@ -216,7 +229,7 @@ def rand_cb(rng, ids, cbdepth):
             acts.append(["flush", ids()] + ([rand_cb(rng, ids, cbdepth - 1)] + ([rng.choice([1, 2, 3])] if rng.random() < 0.3 else [])
                                             if rng.random() < 0.7 else []))
         elif k < 0.5:
-            acts.append(["fire", ids()])
+            acts.append(with_value(["fire", ids()]))
         elif k < 0.6:
             acts.append(["flush", ids()])
         else:
@@ -231,12 +244,28 @@ def rand_script(rng, ids, depth):
         if k < 0.5 and depth > 0:
             acts.append(["enq", rand_script(rng, ids, depth - 1)])
         elif k < 0.65:
-            acts.append(["fire", ids()])
+            acts.append(with_value(["fire", ids()]))
         elif k < 0.9:
             acts.append(["flush", ids()] + ([rand_cb(rng, ids, 2)] if rng.random() < 0.4 else []))
         else:
-            acts.append(["enq", [ids(), [], rng.choice([0, 0, 1, 2, 5])]])
-    return [ids(), acts, rng.choice([0, 0, 0, 0, 0, 1, 1, 2, 3, 4, 5])]
+            acts.append(["enq", with_kind([ids(), [], rng.choice([0, 0, 1, 2, 5])])])
+    return with_kind([ids(), acts, rng.choice([0, 0, 0, 0, 0, 1, 1, 2, 3, 4, 5])])
+
+
+def with_kind(script):
+    """random scripts: every second one is submitted as something other than a plain function (functools.partial, an
+    instance with __call__, a class, ...: c17_impl.CALLABLE_KINDS); the kind is a function of the id, so the random stream
+    -- and with it every program generated before this dimension existed -- is unchanged"""
+    from harness import c17_impl as impl
+    i = script[0]
+    return script + [(i // 2) % impl.N_CALLABLE_KINDS] if i % 2 else script
+
+
+def with_value(fire):
+    """random fireEventually requests: every second one with a value that is None / false / empty / opaque"""
+    from harness import c17_impl as impl
+    i = fire[1]
+    return fire + [(i // 2) % impl.N_FIRE_VALUE_KINDS] if i % 2 else fire
 
 
 def ev_raise_family(ctx):
@@ -409,10 +438,69 @@ def ev_fire_family(ctx):
     return out
 
 
+def ev_callable_family(ctx):
+    """WHAT KIND OF OBJECT is submitted: eventually(cb) must call cb and depend on nothing else about it.  For every kind
+    of c17_impl.CALLABLE_KINDS other than the plain function (lambda, bound method, functools.partial with and without
+    bound arguments, instance with __call__, an instance on which everything but the call fails, a class, a function
+    with format characters in its names, ONE function object submitted repeatedly with equal arguments):
+    (a) one fixed mixed batch: returns / raises an Exception after enqueueing a raising callable of the same kind / raises
+        a BaseException after calling flush, with positional and keyword arguments, a fireEventually in between and a
+        flush outstanding;
+    (b) a batch of n callables, the one at position pos of that kind and raising (every raise code in thorough), the
+        neighbours plain functions (flavour 0) / of the same kind, with arguments, a flush outstanding and a second
+        batch behind (1) / fireEventually requests and raising callables of the next kind (2, thorough);
+    (c) fireEventually() with every kind of value (no argument, None, 0, False, empty containers, an opaque object), at
+        top level and from inside a callable.
+    Deterministic (no random choice).  (seeded change C17-r6s1: the except clause of _turn formats the callable's
+    qualified name, which a functools.partial / an instance with __call__ does not have: the rest of the batch is lost)"""
+    from harness import c17_impl as impl
+    NK, NV = impl.N_CALLABLE_KINDS, impl.N_FIRE_VALUE_KINDS
+    thorough = ctx.tier == "thorough"
+    args = [[1, 2], {"a": 3, "kw": 4}]
+    out = []
+    for kind in range(1, NK):
+        ids = Ids()
+        out.append([["act", ["flush", ids()]],
+                    ["act", ["enq", [ids(), [], 0, kind]]],
+                    ["act", ["enq", [ids(), [["enq", [ids(), [], 1, kind], args]], 1, kind], args]],
+                    ["act", ["fire", ids(), kind % NV]],
+                    ["act", ["enq", [ids(), [["flush", ids()]], 5, kind]]],
+                    ["act", ["enq", [ids(), [["enq", [ids(), [], 0, kind]]], 0, kind], args]],
+                    ["turn"], ["act", ["flush", ids()]], ["turn"], ["act", ["flush", ids()]], ["turn"]])
+        for raises in ((1, 2, 3, 4, 5) if thorough else (1, 5)):
+            for n in ((1, 2, 3, 4) if thorough else (1, 3)):
+                for pos in range(n):
+                    for flavour in ((0, 1, 2) if thorough else (0, 1)):
+                        ids = Ids()
+                        prog = [["act", ["flush", ids()]]] if flavour == 1 else []
+                        for k in range(n):
+                            if k == pos:
+                                prog.append(["act", ["enq", [ids(), [], raises, kind]] + ([args] if flavour == 1 else [])])
+                            elif flavour == 0:
+                                prog.append(["act", ["enq", [ids(), [], 0]]])
+                            elif flavour == 1:
+                                prog.append(["act", ["enq", [ids(), [], 0, kind], args]])
+                            elif k % 2:
+                                prog.append(["act", ["fire", ids(), (kind + k) % NV]])
+                            else:
+                                prog.append(["act", ["enq", [ids(), [], 1, 1 + kind % (NK - 1)]]])
+                        prog.append(["turn"])
+                        if flavour == 1:
+                            prog += [["act", ["flush", ids()]], ["act", ["enq", [ids(), [], 0, kind]]], ["turn"]]
+                        out.append(prog)
+    for vk in range(1, NV):
+        ids = Ids()
+        out.append([["act", ["fire", ids(), vk]], ["act", ["enq", [ids(), [["fire", ids(), vk]], 1]]], ["act", ["fire", ids(), vk]],
+                    ["turn"], ["turn"]])
+    return out
+
+
 def ev_programs(ctx):
     fam = ev_flushcb_family(ctx)
     ctx.extra["ev_flushcb_family_programs"] = len(fam)
-    out = fam + ev_flushcb_end_family(ctx) + ev_raise_family(ctx) + ev_args_family(ctx) + ev_fire_family(ctx)
+    ckf = ev_callable_family(ctx)
+    ctx.extra["ev_callable_kind_family_programs"] = len(ckf)
+    out = fam + ev_flushcb_end_family(ctx) + ev_raise_family(ctx) + ev_args_family(ctx) + ev_fire_family(ctx) + ckf
     maxlen = ctx.n(4, 5)
     letters = "NRBQFTLXVK" if ctx.tier == "thorough" else "NRBQFTLK"
     for n in range(1, maxlen + 1):
@@ -441,7 +529,7 @@ def ev_programs(ctx):
             elif k < 0.5:
                 prog.append(["act", ["flush", ids()] + ([rand_cb(ctx.rng, ids, 3)] if ctx.rng.random() < 0.5 else [])])
             elif k < 0.58:
-                prog.append(["act", ["fire", ids()]])
+                prog.append(["act", with_value(["fire", ids()])])
             else:
                 prog.append(["act", ["enq", rand_script(ctx.rng, ids, 3)]])
         out.append(prog)
@@ -793,8 +881,98 @@ def pr_args_family(ctx):
     return out
 
 
+def pr_callable_family(ctx):
+    """the same dimension on the promise side: WHAT KIND OF OBJECT the observer's callback is (p._then(cb) / p._except(cb)
+    / when(p).addBoth(cb): every kind of c17_impl.CALLABLE_KINDS) and what kind of object the RESOLUTION is (its method a
+    plain function, a functools.partial built by a property, an instance attribute with __call__; an object that cannot
+    be printed, compared, hashed or tested for truth: c17_impl.TARGET_KINDS): messages and observers before, during and
+    after the resolution, directly / through a chain / through a Deferred result; a missing method on each kind of
+    target.  Deterministic."""
+    from harness import c17_impl as impl
+    out = []
+    for ck in range(impl.SHARED_KIND):
+        for tk in range(len(impl.TARGET_KINDS)):
+            if ck == 0 and tk == 0:
+                continue
+            for chain in (False, True):
+                final = ["val", 5, tk]
+                prog = [["new"], ["new"], ["send", 0, 1, ["ret", 41]], ["sendonly", 0, 2, ["raise", 62]],
+                        ["when", 0, 101, "then", [[7], {"a": 1}], ck], ["when", 0, 102, "except", [[], {}], ck],
+                        ["when", 0, 103, "when", [[], {}], ck]]
+                if chain:
+                    prog += [["resolve", 0, ["prom", 1]], ["sendonly", 0, 3, ["ret", 43]], ["turn"], ["resolve", 1, final]]
+                else:
+                    prog += [["resolve", 0, final]]
+                prog += [["send", 0, 4, ["nometh"]], ["send", 0, 5, ["ret", 45, (tk + 1) % 4]], ["when", 0, 104, "then", [[], {}], ck],
+                         ["turn"], ["when", 4, 105, "when", [[], {}], ck], ["send", 4, 6, ["ret", 46]], ["sendonly", 0, 7, ["retd"]],
+                         ["turn"], ["fire", 7, ["val", 8, tk]], ["turn"], ["turn"], ["turn"]]
+                out.append(prog)
+        out.append([["new"], ["when", 0, 101, "except", [[7], {"a": 1}], ck], ["when", 0, 102, "then", [[], {}], ck], ["send", 0, 1, ["ret", 41]],
+                    ["resolve", 0, ["fail", 6]], ["when", 0, 103, "except", [[], {}], ck], ["when", 1, 104, "when", [[], {}], ck],
+                    ["turn"], ["turn"], ["turn"]])
+    for tk in range(len(impl.TARGET_KINDS)):        # the Deferred a method returns fires with each kind of object
+        out.append([["new"], ["resolve", 0, ["val", 5, tk]], ["send", 0, 1, ["retd"]], ["when", 1, 101, "when"], ["turn"],
+                    ["fire", 1, ["val", 9, tk]], ["send", 1, 2, ["ret", 42]], ["send", 1, 3, ["nometh"]], ["turn"], ["turn"], ["turn"]])
+    return out
+
+
+def pr_target_state_family(ctx):
+    """promise 0 is resolved WITH A PROMISE that is in each possible state at that moment: EVENTUAL; CHAINED to an
+    unresolved promise (one / two hops); CHAINED to itself (never settles); NEAR / BROKEN directly; NEAR / BROKEN through
+    a chain that has already fired; resolved a moment ago with its notification still queued.  Promise 0 has an observer
+    of each kind and a send + a sendOnly before the resolution, between the resolution and the settling of the end of
+    the chain, and afterwards; the end settles with a value / a Failure / never; with and without reactor calls in the
+    gaps.  Deterministic.  (seeded change C17-r6s2: only an EVENTUAL other promise was followed, the _target of any other
+    one taken over -- a CHAINED promise has none.)"""
+    out = []
+    shapes = ["eventual", "chained1", "chained2", "self", "near", "broken", "near-via-chain", "broken-via-chain", "just-resolved"]
+    for shape in shapes:
+        for settle in ("val", "fail", "never"):
+            if settle != "val" and shape in ("near", "broken", "near-via-chain", "broken-via-chain", "just-resolved", "self"):
+                continue        # nothing is left to settle
+            for turns in (False, True):
+                prog = [["new"] for _ in range(4)]
+                mid, w = [0], [100]
+
+                def traffic():
+                    o = []
+                    for kind in ("when", "then", "except"):
+                        w[0] += 1
+                        o.append(["when", 0, w[0], kind])
+                    mid[0] += 2
+                    return o + [["send", 0, mid[0] - 1, ["ret", 40 + mid[0]]], ["sendonly", 0, mid[0], ["ret", 0]]]
+                T = [["turn"]] if turns else []
+                end = None
+                if shape == "chained1":
+                    prog += [["resolve", 1, ["prom", 2]]]
+                    end = 2
+                elif shape == "chained2":
+                    prog += [["resolve", 2, ["prom", 3]]] + T + [["resolve", 1, ["prom", 2]]]
+                    end = 3
+                elif shape == "self":
+                    prog += [["resolve", 1, ["prom", 1]]]
+                elif shape == "near":
+                    prog += [["resolve", 1, ["val", 7]]]
+                elif shape == "broken":
+                    prog += [["resolve", 1, ["fail", 8]]]
+                elif shape in ("near-via-chain", "broken-via-chain"):
+                    prog += [["resolve", 1, ["prom", 2]], ["resolve", 2, ["val", 7] if shape[0] == "n" else ["fail", 8]], ["turn"]]
+                elif shape == "eventual":
+                    end = 1
+                prog += T + traffic()
+                if shape == "just-resolved":            # promise 1 is CHAINED to 2, 2 resolves: 1's notification is still queued
+                    prog += [["resolve", 1, ["prom", 2]], ["resolve", 2, ["val", 7]]]
+                prog += [["resolve", 0, ["prom", 1]]] + traffic() + T + T
+                if end is not None and settle != "never":
+                    prog += [["resolve", end, ["val", 5] if settle == "val" else ["fail", 6]]]
+                prog += T + traffic() + [["turn"], ["turn"], ["turn"], ["turn"]]
+                out.append(prog)
+    return out
+
+
 def pr_programs(ctx):
-    out = pr_chain_family(ctx) + pr_args_family(ctx) + pr_deferred_family(ctx) + pr_backlog_family(ctx)
+    out = pr_chain_family(ctx) + pr_args_family(ctx) + pr_deferred_family(ctx) + pr_backlog_family(ctx) + pr_callable_family(ctx) \
+        + pr_target_state_family(ctx)
     maxlen = ctx.n(3, 4)
     thorough = ctx.tier == "thorough"
     for n in range(1, maxlen + 1):
